@@ -85,6 +85,23 @@ fn ftrl_checks(ctx: &mut Ctx, class: &str, step: usize, m: &Ftrl<f64>, hp: &[f64
     // the weights themselves: closed form of the proximal step
     let ww: Vec<f64> = z.iter().zip(&n).map(|(z, n)| ftrl_w(*z, *n, hp)).collect();
     ctx.require(near_v(&w, &ww, 1e-12), "weights_closed_form", class, || format!("step {}: get_weights {:?}, closed form {:?}", step, w, ww));
+    // independent of the closed form (Lean: `ftrl_weight_is_proximal_minimiser`): the weight minimises the documented
+    // per-coordinate objective z·w + l1·|w| + ½·d·w², d = (√n + β)/α + l2 > 0 — no nearby or distant w does better
+    let d = |n: f64| (hp[1] + n.sqrt()) / hp[0] + hp[3];
+    let obj = |z: f64, n: f64, w: f64| z * w + hp[2] * w.abs() + 0.5 * d(n) * w * w;
+    for j in 0..z.len() {
+        if !(d(n[j]) > 0.0 && d(n[j]).is_finite() && w[j].is_finite() && z[j].is_finite()) {
+            continue;
+        }
+        let at = obj(z[j], n[j], w[j]);
+        for h in [1e-3, 0.1, 1.0] {
+            for sgn in [-1.0, 1.0] {
+                let v = w[j] + sgn * h * (1.0 + w[j].abs());
+                let there = obj(z[j], n[j], v);
+                ctx.require(at <= there + 1e-9 * (1.0 + there.abs()), "weights_minimise_objective", class, || format!("step {}: coordinate {}: objective {} at the weight {} but {} at {}", step, j, at, w[j], there, v));
+            }
+        }
+    }
 }
 fn show_ftrl(m: &Ftrl<f64>) -> String {
     format!("z={}/n={}/w={}", list(m.z().iter(), |x| tf(*x)), list(m.n().iter(), |x| tf(*x)), list(m.get_weights().iter(), |x| tf(*x)))
@@ -218,6 +235,12 @@ fn op_ftrl_fit(em: &mut Em, hps: &[[f64; 4]], seed: u64, p: usize, batches: &[(R
         for (i, (xs, ys)) in batches.iter().enumerate() {
             let store = mk_store::<f64>(xs, p, layout);
             let ystore = mk_tstore(ys, layout);
+            if let Some(vm) = &viewed {
+                // `predict` through the view against `predict` on an owned C-order copy of the same rows
+                let pv: Vec<f64> = vm.predict(&mk_view(&store, p, layout)).iter().map(|pr| **pr as f64).collect();
+                let po: Vec<f64> = vm.predict(&arr2(xs, p)).iter().map(|pr| **pr as f64).collect();
+                ctx.require(pv.len() == po.len() && pv.iter().zip(&po).all(|(a, b)| (a - b).abs() <= 1e-6 * a.abs().max(b.abs())), "probabilities", &format!("ftrl_fit:layout={}", LAYOUTS[layout]), || format!("predict through a {} view {:?}, on the owned copy {:?}", LAYOUTS[layout], pv, po));
+            }
             let ds = DatasetView::new(mk_view(&store, p, layout), mk_tview(&ystore, layout));
             viewed = Some(params[i].fit_with(viewed.take(), &ds).expect("fit_with on a view"));
         }
